@@ -15,7 +15,7 @@ RULE = ('Part bigarr: mv_and / mv_or / mv_xor on operands of 2.1-5.4 million ele
         'tuples; one enumerated case = (format, operator, k, first operand) and covers all tuples with that first operand, evaluated '
         'packed side by side in lanes and again one tuple alone. Oracle: independent abstract algebra; Boolean restriction; De Morgan. '
         'Part arrays (Hypothesis): array shapes up to 4-D, broadcasting pairs, lane counts, out= (C/F order; an out array aliasing an operand is NOT generated: nothing promises it). '
-        'non-trivial: tuple block / array contains a non-Boolean value; distinct by SHA-1 of the case.')
+        'non-trivial: tuple block / array contains a non-Boolean value; distinct by SHA-1 of the case. In one array case of ten the same array object is passed as both operands; the result must be code for code what the call with a copy returns.')
 ASSUMPTIONS = ['algebra of vk/refmodel.py = semantics documented in logic.py; X and - form one class on the result side']
 
 
@@ -144,7 +144,8 @@ def array_cases(draw, tier):
     b = draw(st.lists(alpha, min_size=n2, max_size=n2))
     out = draw(st.sampled_from(['none', 'none', 'C', 'F', 'T', 'S']))      # caller-supplied destination: C / Fortran order, a transposed or a strided view
     outfill = draw(st.integers(0, 7))
-    return dict(op=op, shape=list(shape), shape2=list(shape2), a=a, b=b, out=out, outfill=outfill)
+    same = draw(st.integers(0, 9)) == 0            # now and then one array object is passed as both operands
+    return dict(op=op, shape=list(shape), shape2=list(shape2), a=a, b=b, out=out, outfill=outfill, same=same)
 
 
 def prop_arrays(case):
@@ -152,6 +153,8 @@ def prop_arrays(case):
     op = case['op']
     x1 = np.array(case['a'], dtype=np.uint8).reshape(case['shape'])
     x2 = np.array(case['b'], dtype=np.uint8).reshape(case['shape2'])
+    if case.get('same') and op != 'not':
+        x2 = x1
     x1c, x2c = x1.copy(), x2.copy()
     f = getattr(logic, f'mv_{op}')
     args = [x1] if op == 'not' else [x1, x2]
@@ -177,6 +180,12 @@ def prop_arrays(case):
             bad = np.argwhere(np.asarray(r_plain) != np.asarray(out))[0].tolist()
             raise Violation(f'mv_{op} with out= ({case["out"]} layout) holds {np.asarray(out)[tuple(bad)]} at {bad}, the call without out= returns '
                             f'{np.asarray(r_plain)[tuple(bad)]}')
+    if x2 is x1 and op != 'not':     # element-wise: the result is a function of the values, whether or not both operands are one object
+        r_copy = f(x1, x1.copy())
+        if not np.array_equal(np.asarray(r_copy), np.asarray(r)):
+            bad = np.argwhere(np.asarray(r_copy) != np.asarray(r))[0].tolist()
+            raise Violation(f'mv_{op}(x, x) holds {np.asarray(r)[tuple(bad)]} at {bad} (x = {int(x1c[tuple(bad)])} there), mv_{op}(x, x.copy()) returns '
+                            f'{np.asarray(r_copy)[tuple(bad)]}')
     if r.shape != bshape:
         raise Violation(f'mv_{op}: result shape {r.shape} != broadcast shape {bshape}')
     a1 = np.broadcast_to(x1c, bshape); a2 = np.broadcast_to(x2c, bshape) if op != 'not' else None
@@ -201,6 +210,7 @@ def prop_arrays(case):
             raise Violation(f'bp8v_{op} and mv_{op} disagree on arrays of shape {x1.shape}')
     labels = [op, 'out_' + case['out'], f'ndim{len(bshape)}']
     if x1.shape != x2.shape and op != 'not': labels.append('broadcast')
+    if x2 is x1 and op != 'not': labels.append('same_object_twice')
     if x1.ndim == 0: labels.append('first_operand_0d')
     if x2.ndim == 0 and op != 'not': labels.append('second_operand_0d')
     nontrivial = any(v not in (0, 3) for v in case['a'])
